@@ -397,18 +397,45 @@ example : @forLoop Rat (ratNum F) (1 : Rat) (22 / 10) (1 / 2) 10 = ([1, 3 / 2, 2
 
 end ForLoop
 
-/-- the NEXT statement of the machine decides with `nextContinues` on the incremented variable: for a FOR frame on
-top of the stack whose variable is `l.var` the variable becomes `v + step`; the machine goes back to the frame's
-home position when `nextContinues` holds and otherwise drops the frame and goes on behind NEXT -/
+/-- the NEXT statement of the machine decides with `nextContinues` on the incremented *designated cell* of the FOR
+frame on top of the stack (`l.cell`, recorded by FOR): that cell becomes `v + step`; the machine goes back to the
+frame's home position when `nextContinues` holds and otherwise drops the frame and goes on behind NEXT. The
+variable's own pointer (`ptr`, moved by every reference to the array) plays no role. -/
 theorem next_uses_nextContinues {α : Type} [BNum α] (hook : Hook α) (s : St α) (line : Option Nat)
     (l : Loop α) (rest : List (Loop α)) (hk : l.kind = .for_) (hs : s.loops = l :: rest) :
-    let nv := BNum.add (s.getVar l.var).numVal l.step
-    let s2 := s.setVar l.var ((s.getVar l.var).setNum nv)
+    let nv := BNum.add ((s.getVar l.var).numAt l.cell) l.step
+    let s2 := s.setVar l.var ((s.getVar l.var).setNumAt l.cell nv)
     execStmt hook s line (.k .next) [] =
       (if nextContinues nv l.max l.step then
         .ok { st := { s2 with loops := l :: rest }, line := l.homeline, t := l.hometok }
        else .ok { st := { s2 with loops := rest }, line := line, t := [] }) := by
   simp [execStmt, isEos, hs, popTo, hk]
+
+/-- **The loop cell is independent of what the body, limit and step expressions reference.** Reading and writing the
+designated cell do not depend on where the variable's pointer was left (af19d591), the pointer itself is left alone,
+and a write to the designated array cell changes no other cell. Together with `next_uses_nextContinues`,
+`for_iterations` and `for_count_closed_form`: a FOR loop whose body does not assign its loop cell runs
+`max 0 (⌊(limit − start)/step⌋ + 1)` times and leaves the designated cell at the first value past the limit, whatever
+elements of the same array the body / limit / step expressions reference. -/
+theorem for_cell_ignores_pointer {α : Type} [BNum α] (v : Var α) (p cell : Option Nat) (x : α) :
+    ({ v with ptr := p } : Var α).numAt cell = v.numAt cell ∧
+    (({ v with ptr := p } : Var α).setNumAt cell x).ptr = p ∧
+    ((v.setNumAt cell x).numAt cell = x ∨ (∃ k, cell = some k ∧ v.arr.size ≤ k)) := by
+  refine ⟨rfl, rfl, ?_⟩
+  cases cell with
+  | none => left; simp [Var.setNumAt, Var.numAt, Var.setNum, Var.numVal]
+  | some k =>
+    by_cases hk : k < v.arr.size
+    · left; simp [Var.setNumAt, Var.numAt, Var.setNum, Var.numVal, Array.setIfInBounds, hk]
+    · right; exact ⟨k, rfl, Nat.le_of_not_lt hk⟩
+
+/-- ERASE inside a running FOR loop on an element of the erased array: the loop continues on the scalar cell -/
+theorem erase_repoints_for_cell {α : Type} [BNum α] (s : St α) (name : String) (l : Loop α) (rest : List (Loop α))
+    (hk : l.kind = .for_) (hv : l.var = name) (hs : s.loops = l :: rest) :
+    ∃ s1 r', cmdErase 1 s [.var name] = .ok (s1, r') ∧ (s1.loops.head?.map (·.cell)) = some none := by
+  refine ⟨_, _, rfl, ?_⟩
+  simp [St.setVar, hs, hk, hv]
+  split <;> simp [hs, hk, hv]
 
 /-! ## IF / THEN / ELSE -/
 
@@ -637,6 +664,32 @@ theorem put_then_get {α : Type} [BNum α] (s : St α) (key : String) (x : α) (
     (∀ key', key' ≠ key → lookupD ({ s with putN := insertKV s.putN key x } : St α).putN key' d = lookupD s.putN key' d) :=
   ⟨store_get_put_same _ _ _ _, fun _ h => store_get_put_other _ _ _ _ _ h⟩
 
+
+/-- **LET stores into the element its left-hand side designates.** `findvar` leaves the per-variable cell pointer on the
+element referenced last; the right-hand side may reference other elements of the same array (moving that pointer) —
+the value still goes to the cell the left-hand side designated, and the pointer is put back there (`cmdlet`'s
+save/restore, numeric and string alike) -/
+theorem let_stores_in_designated_cell {α : Type} [BNum α] (hook : Hook α) (s s1 s2 : St α) (name : String)
+    (t t2 r : List (Tok α))
+    (hv : varRefAt hook t s = .ok (name, (.k .eq : Tok α) :: t2, s1)) :
+    (∀ x, isStrName name = false → realExprAt hook t2 s1 = .ok (x, r, s2) →
+      cmdLet hook s t = .ok (s2.setVar name ({ s2.getVar name with ptr := (s1.getVar name).ptr }.setNum x), r)) ∧
+    (∀ x, isStrName name = true → strExprAt hook t2 s1 = .ok (x, r, s2) →
+      cmdLet hook s t = .ok (s2.setVar name ({ s2.getVar name with ptr := (s1.getVar name).ptr }.setStr x), r)) := by
+  constructor
+  · intro x hn he
+    simp [cmdLet, hv, requireK, Tok.isK, hn, he]
+  · intro x hn he
+    simp [cmdLet, hv, requireK, Tok.isK, hn, he]
+
+/-- the cell a store goes to is the designated one whatever the pointer was moved to meanwhile -/
+theorem setNum_designated {α : Type} [BNum α] (v : Var α) (k : Nat) (x : α) (hk : k < v.arr.size) :
+    (({ v with ptr := some k }.setNum x).arr[k]? = some x) ∧
+    (∀ j, j ≠ k → ({ v with ptr := some k }.setNum x).arr[j]? = v.arr[j]?) := by
+  constructor
+  · simp [Var.setNum, Array.setIfInBounds, hk]
+  · intro j hj
+    simp [Var.setNum, Array.setIfInBounds, hk, Array.getElem?_set, Ne.symm hj]
 
 /-- **The store outlives the program.** A program defined later in the same engine (a redefined USER_PUNCH, another
 host's program) starts with fresh lines, variables, loop stack and DATA pointer but finds the PUT/PUT$ store exactly as
